@@ -35,8 +35,11 @@ Definition rd_n (body : list N) (w : N) (s : rd) : N * rd :=
   else if lenN body <? r_pos s + w then (0, mkRd (r_pos s) true)
   else (abe (firstn (N.to_nat w) (skipn (N.to_nat (r_pos s)) body)) 0, mkRd (r_pos s + w) false).
 
-(* ReadBytes(n) / SkipBytes(n) with n >= 0 known: no value needed *)
-Definition rd_skip (body : list N) (w : N) (s : rd) : rd := snd (rd_n body w s).
+(* ReadBytes(n) / SkipBytes(n) with n >= 0 known: the state of rd_n without the value (rd_skip_eq) *)
+Definition rd_skip (body : list N) (w : N) (s : rd) : rd :=
+  if r_err s then s
+  else if lenN body <? r_pos s + w then mkRd (r_pos s) true
+  else mkRd (r_pos s + w) false.
 
 (* ReadBytes(n) with a Go int n that may be negative: error "attempt to read negative number of bytes" *)
 Definition rd_bytes_z (body : list N) (n : Z) (s : rd) : rd :=
@@ -193,11 +196,11 @@ Definition alloc_saio (hs hl : N) (body : list N) : res aout :=
   else let '(it, s) := rd_loop_x body cnt e s in afin true s cnt (8 * it) it.
 
 (* ---- senc first phase (DecodeSencSR / DecodeSenc): rawData is a sub-slice, nothing is allocated from the count ---- *)
-Definition alloc_senc (sr_path : bool) (hs hl : N) (body : list N) : res aout :=
+Definition alloc_senc_from (s0 : rd) (sr_path : bool) (hs hl : N) (body : list N) : res aout :=
   if hs <? 16 then rej
   else if negb sr_path && (lenN body <? 8) then rej
   else
-    let '(vf, s) := rd_n body 4 rd0 in
+    let '(vf, s) := rd_n body 4 s0 in
     if 0 <? version_of vf then rej
     else
       let '(cnt, s) := rd_n body 4 s in
@@ -208,6 +211,7 @@ Definition alloc_senc (sr_path : bool) (hs hl : N) (body : list N) : res aout :=
       else
         if has fl 2 && (lenN body - 8 <? 2 * cnt) then rej
         else afin false s cnt 0 0.
+Definition alloc_senc (sr_path : bool) (hs hl : N) (body : list N) : res aout := alloc_senc_from rd0 sr_path hs hl body.
 
 (* ---- sbgp ---- *)
 Definition alloc_sbgp (hs hl : N) (body : list N) : res aout :=
@@ -360,13 +364,58 @@ Definition alloc_sgpd_alst (g : bool) (hs hl : N) (body : list N) : res aout :=
 Definition name_of (bs : list N) : list N := firstn 4 (skipn 4 bs).
 
 Inductive tbox := TbTrun | TbStts | TbCtts | TbStsc | TbStsz | TbStco | TbCo64 | TbStss | TbSdtp | TbSaiz | TbSaio | TbSenc
-                | TbSbgp | TbSubs | TbElst | TbTfra | TbSidx | TbSgpd | TbPssh | TbSsix | TbTrefType | TbLeva.
+                | TbSbgp | TbSubs | TbElst | TbTfra | TbSidx | TbSgpd | TbPssh | TbSsix | TbTrefType | TbLeva | TbUuid | TbFtyp | TbStyp.
 
 Definition aeqb_name (a b : list N) : bool :=
   match a, b with
   | [a0; a1; a2; a3], [b0; b1; b2; b3] => (a0 =? b0) && (a1 =? b1) && (a2 =? b2) && (a3 =? b3)
   | _, _ => false
   end.
+
+(* ---- uuid (mp4/uuid.go DecodeUUIDBoxSR, used by both paths): tfxd, tfrf (fragment count is 8 bit, two uint64
+        appended per fragment, no size guard), PIFF senc (DecodeSencSR on a sub-header of size hs-16), anything else
+        (payload = ReadBytes(hs - 24)) ---- *)
+Definition uuid_tfxd : list N := [109;29;155;5;66;213;68;230;128;226;20;29;175;247;87;178].
+Definition uuid_tfrf : list N := [212;128;126;242;202;57;70;149;142;84;38;203;158;70;167;159].
+Definition uuid_piff : list N := [162;57;79;82;90;155;79;20;162;68;108;66;124;100;141;244].
+Fixpoint eqb_bytes (a b : list N) : bool :=
+  match a, b with
+  | [], [] => true
+  | x :: a', y :: b' => (x mod 256 =? y) && eqb_bytes a' b'
+  | _, _ => false
+  end.
+Definition alloc_uuid (hs hl : N) (body : list N) : res aout :=
+  let s := rd_skip body 16 rd0 in
+  let u := if r_err s then [] else firstn 16 body in
+  if eqb_bytes u uuid_tfxd then
+    let '(vf, s) := rd_n body 4 s in
+    let s := if version_of vf =? 0 then rd_skip body 4 (rd_skip body 4 s) else rd_skip body 8 (rd_skip body 8 s) in
+    afin true s 0 40 0
+  else if eqb_bytes u uuid_tfrf then
+    let '(vf, s) := rd_n body 4 s in
+    let '(cnt, s) := rd_n body 1 s in
+    let s := rd_loop body cnt (if version_of vf =? 0 then 8 else 16) s in
+    afin true s cnt (16 * cnt + 64) cnt
+  else if eqb_bytes u uuid_piff then
+    if hs <? 16 then rej
+    else
+      match alloc_senc_from s true (hs - 16) 8 body with
+      | Ok o => Ok (mkO (o_ok o) (o_count o) (o_alloc o) (o_iters o))
+      | r => r
+      end
+  else
+    if hs <? 24 then rej
+    else let s := rd_bytes_z body (Z.of_N hs - 24) s in afin true s 0 0 0.
+
+(* ---- ftyp / styp: the payload is kept as a sub-slice; the compatible brands are cut out on demand ---- *)
+Definition alloc_ftyp (hs hl : N) (body : list N) : res aout :=
+  if (apayload_len hs hl <? 8)%Z then rej
+  else let s := rd_bytes_z body (apayload_len hs hl) rd0 in
+       afin true s (Z.to_N ((apayload_len hs hl - 8) / 4)) 0 0.
+(* DecodeStyp (reader path) checks len(data) < 8 and returns nil error; DecodeStypSR as ftyp *)
+Definition alloc_styp (sr_path : bool) (hs hl : N) (body : list N) : res aout :=
+  if sr_path then alloc_ftyp hs hl body
+  else if lenN body <? 8 then rej else Ok (mkO true ((lenN body - 8) / 4) 0 0).
 
 (* ---- sgpd, the whole entry loop (mp4/sgpd.go DecodeSgpdSR + samplegroupentries.go), repaired text.
         Entry decoders: seig (20 bytes + optional constant IV), roll (2), rap (1), alst, any other type (ReadBytes).
@@ -455,6 +504,9 @@ Definition tbox_of (nm : list N) : option tbox :=
   if aeqb_name nm [115;115;105;120] then Some TbSsix else
   if aeqb_name nm [104;105;110;116] then Some TbTrefType else   (* hint; cdsc font hind vdep vplx subt share the decoder *)
   if aeqb_name nm [108;101;118;97] then Some TbLeva else
+  if aeqb_name nm [117;117;105;100] then Some TbUuid else
+  if aeqb_name nm [102;116;121;112] then Some TbFtyp else
+  if aeqb_name nm [115;116;121;112] then Some TbStyp else
   None.
 
 Definition alloc_table (t : tbox) (sr_path : bool) (hs hl : N) (body : list N) : res aout :=
@@ -481,6 +533,9 @@ Definition alloc_table (t : tbox) (sr_path : bool) (hs hl : N) (body : list N) :
   | TbSsix => alloc_ssix hs hl body
   | TbTrefType => alloc_treftype hs hl body
   | TbLeva => alloc_leva_prologue hs hl body
+  | TbUuid => alloc_uuid hs hl body
+  | TbFtyp => alloc_ftyp hs hl body
+  | TbStyp => alloc_styp sr_path hs hl body
   end.
 
 (* DecodeHeaderSR / DecodeHeader on the first bytes: (size, header length); size 0 and size < header are errors *)
